@@ -177,7 +177,7 @@ def inG0 : PyVal → Bool
   | .set _ _ xs => inG0List xs
   | .dict _ items => items.all (fun kv => decide kv.1.WF) && inG0Items items
   | .obj _ c fs => clsObjOK c && fs.all (fun kv => decide kv.1.WF) && inG0Items fs
-  | .func _ b _ _ _ => b.hasSource
+  | .func _ b code _ _ => b.hasSource && code.isEmpty
   | _ => false
 def inG0List : List PyVal → Bool
   | [] => true
